@@ -19,6 +19,11 @@ beyond generators (C01); quadrature/boson conversions; DOCI.
 import OFV.Proofs.C08Arith
 import OFV.Proofs.C08Conv
 import OFV.Proofs.C08Rot
+import OFV.Proofs.C08Iter
+import OFV.Proofs.C08Fock
+import OFV.Proofs.C08Car
+import OFV.Proofs.C08Maj
+import OFV.Proofs.C08Comp
 
 namespace OFV.C08
 open OFV OFV.Spec OFV.Spec.C08 OFV.Model.C08 OFV.C08P
@@ -74,6 +79,42 @@ theorem tensor_sub_counterexample :
   refine ⟨exA, exB, _, exA_WF, exB_WF, by simp [exB], rfl, ?_⟩
   decide +kernel
 
+/-- **`tensor_denote_iter`: `get_fermion_operator(PolynomialTensor)` denotes the tensor.**
+The FermionOperator built by `_polynomial_tensor_to_fermion_operator` — driven by `__iter__` (keys
+sorted by `(len, int(''.join(key)))`, zero entries skipped, `()` always yielded) and `__getitem__`,
+accumulated with `+=` (which deletes coefficients below the tolerance) — has the matrix elements of
+`⟦T⟧ = Σ_key Σ_index T_key[index] · (index, key)`, for tensors of any order and any key set.
+Hypotheses: distinct keys, well-shaped arrays, and the exact regime (every coefficient the loop
+reads is `0` or not below the tolerance; implied by "every entry is 0 or ≥ tol"). -/
+theorem tensor_denote_iter (tol : Rat) (a : PT) (hn : (Dict.keys a.d).Nodup) (hs : WF a)
+    (hx : ∀ e ∈ iterE a, GQ.isSmall tol e.2 = true → e.2 = 0) (t s : Nat) :
+    melF (toFermion tol a) t s = melF (denotePT a.d) t s := by
+  rw [melF_eq_evalW, melF_eq_evalW, evalW_denotePT, toFermion_eq]
+  have hnd : ((iterE a).map Prod.fst).Nodup :=
+    (iter_nodup a hn hs).sublist (iterE_fst_sublist a (iter a))
+  rw [fold_fresh tol _ (iterE a) [] hnd (by intro e _; simp) hx]
+  have := iterE_sum (fun τ => termMel τ t s) a hn hs
+  simp only [evalW, zero_add]
+  exact this
+
+/-- **`getitem_spec`**: `T[(i_1, a_1), …, (i_k, a_k)]` is the entry `index = (i_1..i_k)` of the array
+stored under the key `(a_1..a_k)` (non-constant keys). -/
+theorem getitem_spec (a : PT) (k : Key) (T : Tensor) (idx : List Nat) (c : GQ) (hk : k ≠ [])
+    (hl : idx.length = k.length) (hg : Dict.get? a.d k = some T) (ht : tget idx T = some c) :
+    getitem a (idx.zip k) = .ok c := by
+  rw [getitem_zip a k T idx hk hl hg, ht]
+
+example : getitem exC [(0, 1), (0, 0)] = .ok ⟨2, 1⟩ := by decide +kernel
+
+/-- the terms yielded by `__iter__` are pairwise distinct (no entry is yielded twice) -/
+theorem iter_yields_distinct_terms (a : PT) (hn : (Dict.keys a.d).Nodup) (hs : WF a) : (iter a).Nodup :=
+  iter_nodup a hn hs
+
+/-- non-vacuity: `exC` (a one-body array and a constant) is in the exact regime of the live tolerance -/
+example : (Dict.keys exC.d).Nodup ∧ WF exC ∧
+    ∀ e ∈ iterE exC, GQ.isSmall Generated.eqTolerance e.2 = true → e.2 = 0 :=
+  ⟨by decide, exC_WF, by decide +kernel⟩
+
 /-- scalar `*` / `*=` -/
 theorem tensor_smul_hom (a : PT) (c : GQ) (t s : Nat) :
     melF (denotePT (imulS a c).d) t s = c * melF (denotePT a.d) t s := by
@@ -113,6 +154,61 @@ theorem basis_change_mel (n : Nat) (R : Mat) (key : Key) (T : Tensor)
       = evalT key.length (pull n R key (fun P => termMel (P.zip key) t s)) T := by
   rw [melF_eq_evalW]
   exact basis_change_sound_formal n R key T h _
+
+/-- **`basis_change_sound` on Fock space.**  In `Module.End GQ (ℕ →₀ GQ)` with the ladder operators
+`gF (P, x)` built from `Spec.actF` (C03's Fock interpretation, whose matrix elements are `Spec.melF`):
+the operator denoted by the rotated tensor is the operator denoted by the original tensor with every
+ladder operator `(a, x)` replaced by the rotated one `rotLadder a x = Σ_P R_x[a, P] · (P, x)`
+(`R_x = conj R` for creation operators, `R` for annihilation operators):
+`⟦general_basis_change(M, R, key)⟧ = Σ_a M[a] · Π_i rotLadder(a_i, key_i)`,
+for every order, mixed actions and every complex matrix `R` (unitary or not). -/
+theorem basis_change_sound_fock (n : Nat) (R : Mat) (key : Key) (T : Tensor)
+    (hT : Shaped n key.length T) (hkey : ∀ x ∈ key, x < 2) :
+    Proofs.C03.fockInterp.evalOp (denoteTensor key (basisChange n R key T))
+      = ((indices n key.length).map fun a => (tget a T).getD 0 • rotWord n R a key).sum :=
+  basisChange_fock n R key T hT hkey
+
+/-- **anticommutators of the rotated ladder operators** (any `R`): `{ã_b, ã†_a} = (R R†)_{ba}`,
+`{ã_a, ã_b} = {ã†_a, ã†_b} = 0`. -/
+theorem rotated_ladder_anticommutators (n : Nat) (R : Mat) (a b : Nat) :
+    (rotLadder n R b 0 * rotLadder n R a 1 + rotLadder n R a 1 * rotLadder n R b 0
+      = sumN n (fun P => matGet R b P * matGet (conjMat R) a P) • (1 : FEnd)) ∧
+    (∀ x, rotLadder n R b x * rotLadder n R a x + rotLadder n R a x * rotLadder n R b x = 0) :=
+  ⟨rot_car_mixed_aux n R a b, fun x => rot_car_same_aux n R a b x⟩
+
+/-- **for a unitary `R` the rotated ladder operators satisfy the CAR again**, so that by
+`basis_change_sound_fock` `rotate_basis` is the substitution `a ↦ ã` by a family with the same
+algebraic relations (a Bogoliubov transformation). -/
+theorem rotated_ladder_car_unitary (n : Nat) (R : Mat)
+    (hU : ∀ a b, a < n → b < n →
+      sumN n (fun P => matGet R b P * matGet (conjMat R) a P) = if a = b then 1 else 0)
+    (a b : Nat) (ha : a < n) (hb : b < n) :
+    rotLadder n R b 0 * rotLadder n R a 1 + rotLadder n R a 1 * rotLadder n R b 0
+      = if a = b then (1 : FEnd) else 0 := by
+  rw [rot_car_mixed_aux, hU a b ha hb]
+  split <;> simp
+
+/-- non-vacuity: the complex permutation `[[0, i], [1, 0]]` is unitary in the sense of the hypothesis -/
+example : ∀ a < 2, ∀ b < 2,
+    sumN 2 (fun P => matGet [[0, GQ.I], [1, 0]] b P * matGet (conjMat [[0, GQ.I], [1, 0]]) a P)
+      = if a = b then 1 else 0 := by decide +kernel
+
+/-- **successive rotations compose**: `general_basis_change` by `R1` followed by `R2` denotes the
+same polynomial (for every weight on words, hence the same matrix elements) as one basis change
+by the matrix product `R1 · R2` — keys of any order, mixed actions, complex matrices. -/
+theorem basis_change_compose (n : Nat) (R1 R2 : Mat) (key : Key) (T : Tensor)
+    (hT : Shaped n key.length T) (w : List (Nat × Nat) → GQ) :
+    evalW w (denoteTensor key (basisChange n R2 key (basisChange n R1 key T)))
+      = evalW w (denoteTensor key (basisChange n (matMul n R1 R2) key T)) := by
+  rw [evalW_denoteTensor, evalW_denoteTensor]
+  exact basisChange_comp n R1 R2 key T hT _
+
+theorem basis_change_compose_mel (n : Nat) (R1 R2 : Mat) (key : Key) (T : Tensor)
+    (hT : Shaped n key.length T) (t s : Nat) :
+    melF (denoteTensor key (basisChange n R2 key (basisChange n R1 key T))) t s
+      = melF (denoteTensor key (basisChange n (matMul n R1 R2) key T)) t s := by
+  rw [melF_eq_evalW, melF_eq_evalW]
+  exact basis_change_compose n R1 R2 key T hT _
 
 /-- the rotated array has the shape of the input -/
 theorem basis_change_shape (n : Nat) (R : Mat) (key : Key) (T : Tensor)
@@ -154,5 +250,28 @@ theorem fermion_generator_sound (j a t s : Nat) (ha : a = 0 ∨ a = 1) :
     simp [evalW, evalWM, termMel, termMelM, actFTerm, actMTerm, actF, actM, hb, hc, hj, hj1, ht,
       GQ.sgn, GQ.ipow] <;>
     decide +kernel
+
+/-- **`get_majorana_operator(FermionOperator)` is sound, at full strength**: for every
+FermionOperator `A` (actions 0 / 1; any number of terms, any term length, repeated indices, any
+complex coefficients — `MajoranaOperator.__iadd__` does not prune, so no tolerance hypothesis), the
+MajoranaOperator built by `_fermion_operator_to_majorana_operator` denotes the same endomorphism of
+Fock space (products by `_merge_majorana_terms`, sums by `+=`). -/
+theorem get_majorana_operator_sound (A : Model.Op) (hv : ∀ e ∈ A, ∀ f ∈ e.1, f.2 < 2) :
+    evM (fermionToMajorana A) = Proofs.C03.fockInterp.evalOp A :=
+  evM_fermionToMajorana A hv
+
+/-- … hence the same matrix elements in the shared Spec (`Spec.applyM` vs `Spec.melF`) -/
+theorem get_majorana_operator_mel (A : Model.Op) (hv : ∀ e ∈ A, ∀ f ∈ e.1, f.2 < 2) (s t : Nat) :
+    SV.coeff (applyM (fermionToMajorana A) s) t = melF A t s := by
+  rw [← evM_apply, evM_fermionToMajorana A hv, Proofs.C03.fock_evalOp_melF A hv]
+
+/-- non-vacuity / sanity: `a†_1 a_0` -/
+example : ∀ f ∈ ([(1, 1), (0, 0)] : Model.Term), f.2 < 2 := by decide
+
+/-- **Majorana products are operator products**: `MajoranaOperator.__mul__` (`mmul`, signs from
+`_merge_majorana_terms`) is composition of the denoted endomorphisms when the left factor has
+strictly increasing terms (which `MajoranaOperator.__init__` guarantees). -/
+theorem majorana_mul_hom (a b : Model.MOp) (ha : SortedM a) : evM (Model.mmul a b) = evM a * evM b :=
+  evM_mmul a b ha
 
 end OFV.C08
